@@ -31,17 +31,28 @@
       intermediate statements `adj_line_error`, `presented_sum_adj_within_one_unit`,
       `presented_total_adj_within_one_unit`, `presented_tax_within_one_unit`,
       `presented_payment_within_one_unit` need only the part of the class they use.
+    * prices including one tax category (`prices_include`; Proofs/CalcErrorInc.lean):
+      class `DocCI` ⊇ `DocC` (the included category not retained, its percentages ≥ 0):
+      `calc_eq_spec_included` — all ten totals, `tax_included` among them, with one
+      more rounding point per row that carries the included category (the division
+      of `removeIncludedTaxes`) and the rate groups of the included category;
+      `included_explicit_bound`, `precise_error_lt_unit_included`;
+    * the rows of the tax summary as presented figures (`calc_tax_category_rows_spec`:
+      category amount and surcharge; `calc_tax_group_rows_spec`: group base, amount,
+      surcharge — Proofs/CalcErrorInc.lean, Proofs/CalcErrorGroups.lean);
+    * tighter, rational weights with the actual percentages instead of their bound
+      100 % (Proofs/CalcErrorTight.lean): `calc_eq_spec_tight`, `tight_explicit_bound`,
+      `precise_error_lt_unit_tight`.
   Not proved (exercised by the correspondence and the error-bound oracle only):
-    the same bound outside `DocC`: lines with a breakdown, foreign-currency items and
+    the same bound outside `DocCI`: lines with a breakdown, foreign-currency items and
     rate × quantity charges (for these it is false: the three known findings), bases,
-    fixed amounts and roundings finer than currency + 2 decimals, included taxes
-    (`prices_include`), the `currency` rule.  Of the presented rows only the line
-    totals, the document discount / charge rows, the advances and the due dates are
-    covered (`calc_lines_spec`, `calc_adj_rows_spec`, `calc_payment_rows_spec`), not
-    the line sums, the line discount / charge rows and the rows of the tax summary.
-  The class is decidable: `Spec.C01.inDocC` (sound by `inDocC_sound`), evaluated by
-  the driver; the harness holds the real output of every in-class document to
-  `decided_class_bound`.
+    fixed amounts and roundings finer than currency + 2 decimals, an included category
+    with a negative percentage, the `currency` rule.  Of the presented rows the line
+    sums and the line discount / charge rows are not stated.
+  The classes are decidable: `Spec.C01.inDocC` (sound by `inDocC_sound`) and
+  `Spec.C01.inDocI` (`inDocI_sound`), evaluated by the driver; the harness holds the
+  real output of every in-class document to `decided_class_bound`,
+  `decided_class_bound_included` and the tighter `decided_class_bound_tight`.
 -/
 import GoblVerif.Proofs.CalcErrorMore
 import GoblVerif.Proofs.CalcErrorInc
